@@ -716,5 +716,5 @@ func init() {
 	c19Scenarios["keys"] = c19KeysRun
 	vfRapid("C19/keys",
 		"at least two key requests of the one DirectKeyFetcher are in flight (parked in the key client) at the same time",
-		100, 5000, 8, c19KeysGen, c19KeysCheck)
+		200, 5000, 8, c19KeysGen, c19KeysCheck)
 }
